@@ -1,23 +1,41 @@
 (* C11 model: a request is a trace of storage operations.  [Read] operations do not modify anything; [Aux]
    operations write auxiliary documents (attachment data, out-of-line revision bodies, published unused
    sequences, the sequence counter, e-mail index documents: content-addressed or write-once, never read as
-   primary state); the first [Commit] operation is the single write that makes the request's effect visible
+   primary state; also: entering a document write, and a compare-and-swap write that loses its race and is
+   retried); the first [Commit] operation is the single write that makes the request's effect visible
    (the document mutate-in, the principal CAS write, the session set/delete); everything after it is
    best-effort clean-up or follow-up ([Post] position).  A fault makes one operation return an error without
-   being performed. *)
+   being performed.
+
+   A request with SEVERAL commits (a bulk write: one commit per document; a write to a document that must be
+   imported first: the import's commit, then the write's) is a sequence of sub-requests, each a trace of its
+   own with one commit: [exec_multi] below. *)
 From SG Require Import Base.Prelude.
 
 (* Opt: a best-effort auxiliary write whose failure is ignored.
    PostErr: a follow-up write whose failure IS returned to the caller although the commit already happened
-   (auth.Save writes the e-mail index document after the principal: known finding, see C11_Refuted.v) *)
-Inductive opclass := Read | Aux | Opt | Commit | PostErr.
+   (auth.Save writes the e-mail index document after the principal: known finding, see C11_Refuted.v).
+   Inval: a follow-up write that is part of the request's visible effect (MarkPrincipalsChanged: invalidation of
+   the principals whose access the committed revision changed) and whose failure is logged and swallowed
+   (finding of the deepening round, see C11_Refuted.v) *)
+Inductive opclass := Read | Aux | Opt | Commit | PostErr | Inval.
 Inductive result := ROk | RErr.
 
 Record sys := { committed : bool;        (* the primary state is the request's new state *)
                 aux : list nat;           (* indexes of auxiliary operations performed *)
-                follow_ups_failed : nat }.
+                follow_ups_failed : nat;
+                lost : list nat }.        (* indexes of required follow-ups (Inval) whose failure was swallowed *)
 
-Definition sys0 : sys := {| committed := false; aux := []; follow_ups_failed := 0 |}.
+Definition sys0 : sys := {| committed := false; aux := []; follow_ups_failed := 0; lost := [] |}.
+
+Definition set_committed (s : sys) : sys :=
+  {| committed := true; aux := aux s; follow_ups_failed := follow_ups_failed s; lost := lost s |}.
+Definition add_aux (i : nat) (s : sys) : sys :=
+  {| committed := committed s; aux := i :: aux s; follow_ups_failed := follow_ups_failed s; lost := lost s |}.
+Definition follow_up_failed (s : sys) : sys :=
+  {| committed := committed s; aux := aux s; follow_ups_failed := S (follow_ups_failed s); lost := lost s |}.
+Definition add_lost (i : nat) (s : sys) : sys :=
+  {| committed := committed s; aux := aux s; follow_ups_failed := S (follow_ups_failed s); lost := i :: lost s |}.
 
 (* executing the trace from position i with the faults at the positions in k ([]: no fault).
    Before the commit an error aborts the request; after it errors are logged and the request still
@@ -33,17 +51,18 @@ Fixpoint exec (tr : list opclass) (i : nat) (k : list nat) (s : sys) : sys * res
         if faulty then
           match op with
           | PostErr => (s, RErr)
-          | _ => exec rest (S i) k {| committed := true; aux := aux s; follow_ups_failed := S (follow_ups_failed s) |}
+          | Inval => exec rest (S i) k (add_lost i s)
+          | _ => exec rest (S i) k (follow_up_failed s)
           end
         else exec rest (S i) k match op with
-                               | Aux | PostErr => {| committed := true; aux := i :: aux s; follow_ups_failed := follow_ups_failed s |}
+                               | Aux | PostErr => add_aux i s
                                | _ => s
                                end
       else if faulty then match op with Opt => exec rest (S i) k s | _ => (s, RErr) end
       else match op with
-           | Read | Opt => exec rest (S i) k s
-           | Aux | PostErr => exec rest (S i) k {| committed := false; aux := i :: aux s; follow_ups_failed := follow_ups_failed s |}
-           | Commit => exec rest (S i) k {| committed := true; aux := aux s; follow_ups_failed := follow_ups_failed s |}
+           | Read | Opt | Inval => exec rest (S i) k s
+           | Aux | PostErr => exec rest (S i) k (add_aux i s)
+           | Commit => exec rest (S i) k (set_committed s)
            end
   end.
 
@@ -59,3 +78,29 @@ Definition commit_index (tr : list opclass) : option nat := commit_index_from tr
 
 (* what the model predicts for a fault at operation k of the trace *)
 Definition predicted (tr : list opclass) (k : nat) : result := snd (run_request tr [k]).
+
+(* the whole effect of the request is visible: committed, and no required follow-up was lost *)
+Definition effect_visible (s : sys) : bool := committed s && match lost s with [] => true | _ => false end.
+
+(* ---- requests with several commits ---- *)
+Definition result_ok (r : result) : bool := match r with ROk => true | RErr => false end.
+
+(* The sub-requests [trs] are executed one after the other; fault positions are global (positions in the
+   concatenated trace, the first sub-request starting at [i]).  [cont = true]: every sub-request is executed and
+   reports its own result (bulk write).  [cont = false]: a failed sub-request aborts the following ones, which
+   then report the failure without having done anything ([dead]). *)
+Fixpoint exec_multi (cont : bool) (trs : list (list opclass)) (i : nat) (k : list nat) (dead : bool) : list (sys * result) :=
+  match trs with
+  | [] => []
+  | tr :: rest =>
+      if dead then (sys0, RErr) :: exec_multi cont rest (i + length tr) k true
+      else let m := exec tr i k sys0 in
+           m :: exec_multi cont rest (i + length tr) k (negb cont && negb (result_ok (snd m)))
+  end.
+
+Definition run_multi (cont : bool) (trs : list (list opclass)) (k : list nat) : list (sys * result) :=
+  exec_multi cont trs 0 k false.
+
+(* the single result of a request whose sub-requests abort each other: success iff every sub-request succeeded *)
+Definition overall (out : list (sys * result)) : result :=
+  if forallb (fun m => result_ok (snd m)) out then ROk else RErr.
